@@ -759,65 +759,32 @@ func checkScanErr(e *Env, p *load.Program, fns []*ssa.Function) {
 				r.Unknown("E3.scanerr", key, p.Pos(scan.Pos()), "Scan() is not used as a loop condition")
 				continue
 			}
-			// an Err() call on the same scanner that is executed on every path from the loop exit to a success return
-			var errCalls []*ssa.Call
-			for _, c2 := range flow.Calls(fn) {
-				if ec, ok := c2.(*ssa.Call); ok && flow.CalleeIs(ec, "bufio", "Scanner.Err") && ec.Call.Args[0] == sc {
-					errCalls = append(errCalls, ec)
+			// the loop in a helper that receives the scanner and returns no error (`syscalls := p.scan(s)`): the obligation
+			// is the caller's - after the call, on the scanner it handed in
+			if prm, isParam := sc.(*ssa.Parameter); isParam && !returnsError(fn) {
+				idx := -1
+				for i, q := range fn.Params {
+					if q == prm {
+						idx = i
+					}
 				}
-			}
-			if len(errCalls) == 0 {
-				r.Bad("E3.scanerr", key, p.Pos(scan.Pos()), "the scanner's Err() is never inspected: a read error or an over-long line ends the loop silently and a partial result is returned")
-				continue
-			}
-			// every return reachable from the loop exit with a nil error must be behind `Err() == nil`
-			okAll := true
-			g := flow.G(fn)
-			for b := range g.Reachable(exit) {
-				ret, ok := b.Instrs[len(b.Instrs)-1].(*ssa.Return)
-				if !ok || b == fn.Recover {
+				moved := 0
+				for _, cf := range fns {
+					for _, cc := range flow.Calls(cf) {
+						hc, ok := cc.(*ssa.Call)
+						if !ok || hc.Call.StaticCallee() != fn || idx < 0 || idx >= len(hc.Call.Args) {
+							continue
+						}
+						moved++
+						judgeScanErr(e, p, cf, hc.Call.Args[idx], hc.Block(), hc, load.FuncName(cf)+"/scanner-via-"+fn.Name())
+					}
+				}
+				if moved > 0 {
 					continue
 				}
-				rs := flow.RetResults(ret)
-				errRes := rs[len(rs)-1]
-				conds := flow.DomConds(b)
-				var errKnown, errNonNil bool
-				for _, ec := range errCalls {
-					if nn, known := flow.ErrNonNil(conds, ec); known {
-						errKnown, errNonNil = true, nn
-					}
-				}
-				switch {
-				case !errKnown:
-					// returning the scanner error itself is fine
-					if c3, ok := errRes.(*ssa.Call); ok && flow.CalleeIs(c3, "bufio", "Scanner.Err") && c3.Call.Args[0] == sc {
-						continue
-					}
-					r.Bad("E3.scanerr", key+"/return-without-check", p.Pos(ret.Pos()), "a return after the scan loop is reached without the scanner's error having been inspected")
-					okAll = false
-				case errNonNil:
-					good := flow.KnownNonNilError(errRes, b)
-					if c3, ok := errRes.(*ssa.Call); ok && flow.CalleeIs(c3, "bufio", "Scanner.Err") && c3.Call.Args[0] == sc {
-						good = true
-					}
-					for _, ec := range errCalls {
-						if errRes == ssa.Value(ec) {
-							good = true
-						}
-					}
-					if !good {
-						r.Bad("E3.scanerr", key+"/error-edge", p.Pos(ret.Pos()), "on the edge where the scanner reports an error the function returns an error value that is not provably non-nil (e.g. the stale nil error of an earlier call): the failure is swallowed and the result lost")
-						okAll = false
-					}
-					if !flow.IsNilConst(rs[0]) && len(rs) > 1 {
-						r.Bad("E3.scanerr", key+"/error-edge-result", p.Pos(ret.Pos()), "a partial result is returned together with the scanner error")
-						okAll = false
-					}
-				}
 			}
-			if okAll {
-				r.OK("E3.scanerr", key, p.Pos(scan.Pos()), "Err() is inspected after the loop; its non-nil edge returns (nil, non-nil error)")
-			}
+			judgeScanErr(e, p, fn, sc, exit, scan, key)
+			continue
 		}
 	}
 	r.Floor("E3.scanerr(scanner loops)", nLoops, 1)
@@ -1379,4 +1346,76 @@ func indexInCountedLoop(in ssa.Instruction) (string, bool) {
 		}
 	}
 	return "", false
+}
+
+func returnsError(f *ssa.Function) bool {
+	res := f.Signature.Results()
+	return res.Len() > 0 && flow.IsErrorType(res.At(res.Len()-1).Type())
+}
+
+// judgeScanErr: on every path from `exit` (the loop's exit, or the block of the call that ran the loop) to a return of fn,
+// the error of scanner sc has been inspected and its non-nil edge returns (nil, non-nil error).
+func judgeScanErr(e *Env, p *load.Program, fn *ssa.Function, sc ssa.Value, exit *ssa.BasicBlock, scan *ssa.Call, key string) {
+	r := e.R
+	for once := true; once; once = false {
+		// an Err() call on the same scanner that is executed on every path from the loop exit to a success return
+		var errCalls []*ssa.Call
+		for _, c2 := range flow.Calls(fn) {
+			if ec, ok := c2.(*ssa.Call); ok && flow.CalleeIs(ec, "bufio", "Scanner.Err") && ec.Call.Args[0] == sc {
+				errCalls = append(errCalls, ec)
+			}
+		}
+		if len(errCalls) == 0 {
+			r.Bad("E3.scanerr", key, p.Pos(scan.Pos()), "the scanner's Err() is never inspected: a read error or an over-long line ends the loop silently and a partial result is returned")
+			continue
+		}
+		// every return reachable from the loop exit with a nil error must be behind `Err() == nil`
+		okAll := true
+		g := flow.G(fn)
+		for b := range g.Reachable(exit) {
+			ret, ok := b.Instrs[len(b.Instrs)-1].(*ssa.Return)
+			if !ok || b == fn.Recover {
+				continue
+			}
+			rs := flow.RetResults(ret)
+			errRes := rs[len(rs)-1]
+			conds := flow.DomConds(b)
+			var errKnown, errNonNil bool
+			for _, ec := range errCalls {
+				if nn, known := flow.ErrNonNil(conds, ec); known {
+					errKnown, errNonNil = true, nn
+				}
+			}
+			switch {
+			case !errKnown:
+				// returning the scanner error itself is fine
+				if c3, ok := errRes.(*ssa.Call); ok && flow.CalleeIs(c3, "bufio", "Scanner.Err") && c3.Call.Args[0] == sc {
+					continue
+				}
+				r.Bad("E3.scanerr", key+"/return-without-check", p.Pos(ret.Pos()), "a return after the scan loop is reached without the scanner's error having been inspected")
+				okAll = false
+			case errNonNil:
+				good := flow.KnownNonNilError(errRes, b)
+				if c3, ok := errRes.(*ssa.Call); ok && flow.CalleeIs(c3, "bufio", "Scanner.Err") && c3.Call.Args[0] == sc {
+					good = true
+				}
+				for _, ec := range errCalls {
+					if errRes == ssa.Value(ec) {
+						good = true
+					}
+				}
+				if !good {
+					r.Bad("E3.scanerr", key+"/error-edge", p.Pos(ret.Pos()), "on the edge where the scanner reports an error the function returns an error value that is not provably non-nil (e.g. the stale nil error of an earlier call): the failure is swallowed and the result lost")
+					okAll = false
+				}
+				if !flow.IsNilConst(rs[0]) && len(rs) > 1 {
+					r.Bad("E3.scanerr", key+"/error-edge-result", p.Pos(ret.Pos()), "a partial result is returned together with the scanner error")
+					okAll = false
+				}
+			}
+		}
+		if okAll {
+			r.OK("E3.scanerr", key, p.Pos(scan.Pos()), "Err() is inspected after the loop; its non-nil edge returns (nil, non-nil error)")
+		}
+	}
 }
